@@ -118,12 +118,12 @@ func raceC10() {
 						want := &sessionsapi.SessionState{Email: who + "@example.com", User: who, AccessToken: who + "-" + c02Incompressible(size, int64(g*10+round))}
 						rec := httptest.NewRecorder()
 						req, _ := (&world.Req{Method: "GET", Target: "/", Host: "app.example.com", Headers: cookieHdr(jar)}).Parse()
-						if err := px.P.sessionStore.Save(rec, req, want); err != nil {
+						if err := verifSessionStore(px.P).Save(rec, req, want); err != nil {
 							continue
 						}
 						jar.SetCookies("http", "app.example.com", "/", rec.Header())
 						req2, _ := (&world.Req{Method: "GET", Target: "/", Host: "app.example.com", Headers: cookieHdr(jar)}).Parse()
-						_, _ = px.P.sessionStore.Load(req2)
+						_, _ = verifSessionStore(px.P).Load(req2)
 						world.Serve(px.H, &world.Req{Method: "GET", Target: "/app", Host: "app.example.com", Headers: cookieHdr(jar)})
 					}
 				}(g)
